@@ -382,6 +382,8 @@ class GpRegressor:
 
             # calculate the mean and covariance
             mean = A @ (K_qx * self.alpha).T
+            # the mean function also contributes to the gradient of the prediction
+            mean = mean + self.mean.spatial_gradient(pnt[0, :], self.mean_hyperpars)[:, None]
             covariance = diag(R) - (Q.T @ Q)
 
             # store the results for the current point
@@ -416,6 +418,7 @@ class GpRegressor:
 
             # calculate the mean and covariance
             dmu_dx = A @ (K_qx * self.alpha).T
+            dmu_dx = dmu_dx + self.mean.spatial_gradient(pnt[0, :], self.mean_hyperpars)[:, None]
             dV_dx = -2 * (A * K_qx[None, :]) @ Q
 
             # store the results for the current point
